@@ -74,6 +74,17 @@ PROPS = {
         "trust": ["Flocq 4.1 binary32 (IEEE-754) as the meaning of Rust f32 + - * /", "platform logf: oracle table produced by the harness with f32::ln"],
         "assumptions": ["logf is sampled, not specified: the float layer of C03 is partial (DESIGN.md §2.6)"],
     },
+    "C04": {
+        "subs": [sub("C04", "run_C04", "spec_C04", W_IMPORTS + ["Run.C04"], 120, 1200)],
+        "run_modules": ["C04"],
+        "rule": "ontologies of 2-9 terms (thorough up to 16; Builder and binary v1-v3; diamonds, shortcut edges, several roots, disconnected "
+                "and obsolete terms, kinds without records, terms without annotations); ALL ordered pairs of terms x 8 algorithms x 3 kinds, "
+                "called through Builtins::new(name, kind) (canonical names, upper case, aliases) + HpoTerm::similarity_score and through the "
+                "concrete structs (must agree); bit-exact f32 (Flocq binary32), logf / expf supplied as oracle tables on exactly the arguments "
+                "that occur; non-trivial = diamond, depth >= 2, >= 2 records",
+        "trust": ["Flocq 4.1 binary32 (IEEE-754) as the meaning of Rust f32 arithmetic", "platform logf / expf: oracle tables produced by the harness"],
+        "assumptions": ["expf / logf are sampled, not specified: float finiteness is partial (DESIGN.md §2.6)"],
+    },
     "C05": {
         "subs": [sub("C05", "run_C05", "spec_C05", ["Run.C05"], 1200, 12000)],
         "run_modules": ["C05"],
